@@ -552,6 +552,164 @@ theorem into_iter_blame_sink (c1 : List Adapter) (a : Adapter) (c2 : List Adapte
   rw [into_iter_transparent]
   exact blame_sink _ f sc k e' hs
 
+/-! ## Source side: nothing is taken from the source after the fault -/
+
+theorem loop_state (c : List Adapter) (f : Sink κ Item εk) (sc : List (Ev Item ε)) (n : Nat) (k : κ)
+    (hn : sc.length < n) :
+    (tryForEachLoop (applyChain c rioSource) f n sc k).1 = specRest c f k sc := by
+  induction sc generalizing n k with
+  | nil =>
+    cases n with
+    | zero => omega
+    | succ n => simp [tryForEachLoop, applyChain_tryForSome, rio_nil, specRest]
+  | cons ev rest ih =>
+    cases n with
+    | zero => omega
+    | succ n =>
+      have hn' : rest.length < n := by simp at hn; omega
+      cases ev with
+      | ok is =>
+        simp only [tryForEachLoop, applyChain_tryForSome, rio_ok, feed_chainWrap, specRest]
+        rcases hf : feed f k (chainItems c is) with ⟨k', r⟩
+        cases r with
+        | error e => rfl
+        | ok u => cases u; exact ih n k' hn'
+      | err is e =>
+        simp only [tryForEachLoop, applyChain_tryForSome, rio_err, feed_chainWrap, specRest]
+        rcases hf : feed f k (chainItems c is) with ⟨k', r⟩
+        cases r with
+        | error e => rfl
+        | ok u => cases u; rfl
+
+/-- the source is left exactly where the specification says: right behind the step in which the
+callback failed or which failed itself (or at its end) — no step is taken after the fault -/
+theorem run_state_spec (c : List Adapter) (f : Sink κ Item εk) (sc : List (Ev Item ε)) (k : κ) :
+    (tryForEachItem (applyChain c rioSource) f sc k).1 = specRest c f k sc := by
+  unfold tryForEachItem
+  rw [applyChain_fuel]
+  exact loop_state c f sc _ k (Nat.lt_succ_self _)
+
+/-- a failing step at position `pre.length` with the callback content until then: everything after
+that step is still in the source -/
+theorem no_read_ahead_source_fault (c : List Adapter) (f : Sink κ Item εk) (pre post : List (Ev Item ε))
+    (is : List Item) (e : ε) (k : κ) (hp : Ev.errorOf pre = none)
+    (hs : (feed f k (chainItems c (Ev.itemsOf pre))).2 = .ok ()) :
+    (tryForEachItem (applyChain c rioSource) f (pre ++ .err is e :: post) k).1 = post := by
+  rw [run_state_spec]
+  induction pre generalizing k with
+  | nil => rfl
+  | cons ev rest ih =>
+    cases ev with
+    | err is' e' => simp [Ev.errorOf] at hp
+    | ok is' =>
+      simp only [Ev.itemsOf, chainItems_append, feed_append] at hs
+      simp only [List.cons_append, specRest]
+      rcases hf : feed f k (chainItems c is') with ⟨k', r⟩
+      rw [hf] at hs
+      cases r with
+      | error e' => cases hs
+      | ok u =>
+        cases u
+        exact ih k' (by simpa [Ev.errorOf] using hp) hs
+
+/-- the callback fails while being fed the items of the step at position `pre.length`: everything
+after that step is still in the source -/
+theorem no_read_ahead_sink_fault (c : List Adapter) (f : Sink κ Item εk) (pre post : List (Ev Item ε))
+    (is : List Item) (k : κ) (e' : εk) (hp : Ev.errorOf pre = none)
+    (hs : (feed f k (chainItems c (Ev.itemsOf pre))).2 = .ok ())
+    (hf : (feed f (feed f k (chainItems c (Ev.itemsOf pre))).1 (chainItems c is)).2 = .error e') :
+    (tryForEachItem (applyChain c rioSource) f (pre ++ .ok is :: post) k).1 = post := by
+  rw [run_state_spec]
+  induction pre generalizing k with
+  | nil =>
+    have hf' : (feed f k (chainItems c is)).2 = .error e' := hf
+    show specRest c f k (.ok is :: post) = post
+    simp only [specRest]
+    rcases hx : feed f k (chainItems c is) with ⟨k', r⟩
+    rw [hx] at hf'
+    cases r with
+    | error e => rfl
+    | ok u => cases hf'
+  | cons ev rest ih =>
+    cases ev with
+    | err is' e'' => simp [Ev.errorOf] at hp
+    | ok is' =>
+      simp only [Ev.itemsOf, chainItems_append, feed_append] at hs hf
+      simp only [List.cons_append, specRest]
+      rcases hx : feed f k (chainItems c is') with ⟨k', r⟩
+      rw [hx] at hs hf
+      cases r with
+      | error e'' => cases hs
+      | ok u =>
+        cases u
+        exact ih k' (by simpa [Ev.errorOf] using hp) hs hf
+
+/-! ## The remaining consumers as instances -/
+
+/-- collecting into a `HashSet` / `BTreeSet`: the set of exactly the delivered items; a source
+failure comes out as `SourceError` -/
+theorem collectSet_spec (c : List Adapter) (sc : List (Ev Item ε)) :
+    (collectSet (applyChain c rioSource) sc).2.2.2 =
+      some (match Ev.errorOf sc with
+        | some e => .error (.source e)
+        | none => .ok ()) ∧
+    (collectSet (applyChain c rioSource) sc).2.1 = chainItems c (Ev.itemsOf sc) := by
+  have h := forEach_spec c (tapPush (fun (v : List Item) t => if v.contains t then v else v ++ [t])) sc ([], [])
+  unfold collectSet forEachTriple
+  have heta : (fun k i => tapPush (fun (v : List Item) t => if v.contains t then v else v ++ [t]) k i) =
+      tapPush (fun (v : List Item) t => if v.contains t then v else v ++ [t]) := rfl
+  rw [heta]
+  rcases hr : forEachItem (applyChain c rioSource)
+      (tapPush (fun (v : List Item) t => if v.contains t then v else v ++ [t])) sc ([], []) with ⟨s', ⟨log, v⟩, r⟩
+  rw [hr] at h
+  simp only [Prod.mk.injEq] at h
+  rcases h with ⟨hst, hr2⟩
+  subst hr2
+  have hlog : ∀ (xs : List Item) (l v : List Item),
+      (xs.foldl (tapPush (fun (v : List Item) t => if v.contains t then v else v ++ [t])) (l, v)).1 = l ++ xs := by
+    intro xs
+    induction xs with
+    | nil => simp
+    | cons x xs ih =>
+      intro l v
+      simp only [List.foldl_cons, tapPush]
+      rw [ih]
+      simp
+  constructor
+  · cases Ev.errorOf sc <;> rfl
+  · have := congrArg Prod.fst hst
+    simp only at this
+    rw [this, hlog]
+    rfl
+
+/-- the streaming serializers: the formatter is called on exactly the delivered items up to the
+call that fails; its failure (constructor, `format`, `finish`) is a `SinkError` with the writer's
+error, a source failure a `SourceError`, and `finish` is only reached after a complete run -/
+theorem serializeRio_spec (plan : FmtPlan) (p : εk) (c : List Adapter) (sc : List (Ev Item ε)) :
+    (serializeRio plan p (applyChain c rioSource) sc).2 =
+      if plan.newFails then ([], some (.error (.sink p)))
+      else
+        match specResult (tap (formatSink plan p)) ([], 0) (chainItems c (Ev.itemsOf sc)) (Ev.errorOf sc) with
+        | ((log, _), some (.ok ())) =>
+          (log, if plan.finishFails then some (.error (.sink p)) else some (.ok ()))
+        | ((log, _), r) => (log, r) := by
+  unfold serializeRio tryForEachTriple
+  cases plan.newFails with
+  | true => rfl
+  | false =>
+    simp only [Bool.false_eq_true, if_false]
+    have heta : (fun k i => tap (formatSink plan p) k i) = tap (formatSink plan p) := rfl
+    rw [heta, ← run_spec]
+    rcases tryForEachItem (applyChain c rioSource) (tap (formatSink plan p)) sc ([], 0) with ⟨s', ⟨log, n⟩, r⟩
+    cases r with
+    | none => rfl
+    | some r =>
+      cases r with
+      | error e => rfl
+      | ok u =>
+        cases u
+        cases plan.finishFails <;> rfl
+
 /-! ## Non-vacuity: the hypotheses are satisfiable by non-trivial values, and the statements
 speak about runs that really deliver, drop, map and fail -/
 
@@ -602,5 +760,18 @@ example :
       (applyChain [.filterItems ⟨2, 0⟩] (intoIterSource (applyChain [] (rioSource (ε := Nat))) (.mapItems (.add 10))))
       (recSink (εk := Nat) none 0) ⟨[.ok [.triple 0], .err [.triple 1, .triple 2] 9, .ok [.triple 3]], []⟩
       ⟨[], 0⟩).2 = (⟨[.triple 11], 1⟩, some (.error (.source 9))) := by rfl
+
+/-- hypotheses of `no_read_ahead_sink_fault`: the closure fails on its 2nd call, inside the 2nd step -/
+example :
+    (feed (recSink (some 1) (5 : Nat)) ⟨[], 0⟩ (chainItems [] (Ev.itemsOf ([.ok [.triple 1]] : List (Ev Item Nat))))).2 = .ok () ∧
+    (feed (recSink (some 1) (5 : Nat))
+      (feed (recSink (some 1) (5 : Nat)) ⟨[], 0⟩ (chainItems [] (Ev.itemsOf ([.ok [.triple 1]] : List (Ev Item Nat))))).1
+      (chainItems [] [.triple 2, .triple 3])).2 = .error 5 := by
+  constructor <;> rfl
+
+/-- the streaming serializer whose formatter fails on its 2nd call -/
+example :
+    (serializeRio ⟨false, some 1, false⟩ (13 : Nat) (applyChain [] (rioSource (ε := Nat)))
+      [.ok [.triple 1, .triple 2], .ok [.triple 3]]).2 = ([.triple 1, .triple 2], some (.error (.sink 13))) := by rfl
 
 end SophiaProofs.C15
